@@ -104,6 +104,20 @@ let c05_tree body =
         show (L [Sym "long"; Sym (bool_s (long_keys t))]) ]
   | _ -> failwith "c05-tree: bad case"
 
+(* in: (PRIMARY-PATHS) (SECONDARY-PATHS) (FINAL-PATHS)   (every input file carries its content)
+   out: (PATH...) sorted — the files merge_attributions_favoring_first emits, with the skip read from the source *)
+let c05_merge body =
+  match parse_many body with
+  | [p; s; f] ->
+      let names x = List.map str_of (list x) in
+      let pr = List.map (fun n -> (n, [])) (names p) and se = List.map (fun n -> (n, [])) (names s) in
+      let fs = List.map (fun n -> (n, n_of_int 1)) (names f) in
+      let own q = if List.exists (fun (n, _) -> ints_of n = ints_of q) (pr @ se) then Some (n_of_int 1) else None in
+      let out = merge_favoring_first gn_merge_skips_absent (fun _ _ -> []) own pr se fs in
+      let out = List.sort compare (List.map (fun (q, _) -> ints_of q) out) in
+      show (L (List.map (fun q -> L (List.map (fun i -> N i) q)) out))
+  | _ -> failwith "c05-merge: bad case"
+
 let () = run_driver ["c05-path", c05_path; "c05-batchcheck", c05_batchcheck; "c05-att", c05_att;
                      "c05-valog", c05_valog; "c05-upsert", c05_upsert; "c05-remap", c05_remap;
-                     "c05-tree", c05_tree] []
+                     "c05-tree", c05_tree; "c05-merge", c05_merge] []
